@@ -269,6 +269,7 @@ func c14CheckParsed(w *mon.W, id, how string, rec *gffRecord, got poly.Sequence,
 			w.Violation(id, fmt.Sprintf("%s: GetSequence of parsed feature %d: %s", how, i, p), rep)
 			return
 		}
+		retainCheck(w, id, "GetSequence", fs, fmt.Sprintf("GetSequence of GFF feature %d", i))
 		w.Add("feature_sequences_checked", 1)
 		want := rec.Seq[rec.Feats[i].Start-1 : rec.Feats[i].End]
 		if fs != want {
